@@ -46,6 +46,9 @@ def instances(tier, seed):
                             "fn": "splice", "timeout": 90 if tier == "quick" else 300,
                             "params": {"K": K, "new": new, "end": endmode, "layout": layout, "sloc": sloc},
                         })
+    # history twins: receiver and `new` were rendered / measured before the splice
+    out += [dict(i, name=i["name"] + "-warm", params=dict(i["params"], warm=True)) for i in out
+            if i["params"]["layout"] == "distinct" and i["params"]["sloc"] is None and (tier != "quick" or i["params"]["K"] in (1, 2, 3))]
     for K in (1, 2):
         for new in ("str", "fmt1"):
             out.append({"name": "native-K%d-%s" % (K, new), "fn": "splice_native", "timeout": 160 if tier == "quick" else 400, "cost": 9,
@@ -79,6 +82,8 @@ def _build(ns, ms, mk_text):
         new = FmtStr(Chunk(mk_text(NEW_SID[0], ms[0]), NEW_ATTS[0]))
     else:
         new = FmtStr(Chunk(mk_text(NEW_SID[0], ms[0]), NEW_ATTS[0]), Chunk(mk_text(NEW_SID[1], ms[1]), NEW_ATTS[1]))
+    if P.get("warm"):
+        H.warm(f, new)      # history: both values were rendered and measured before
     return f, new
 
 
@@ -116,6 +121,7 @@ def splice(n0: int, n1: int, n2: int, n3: int, n4: int, n5: int, m0: int, m1: in
         r = f.append(new)
     newf = new if isinstance(new, FmtStr) else FmtStr(Chunk(new))   # a plain str shows unformatted
     obs = H.observe(r)
+    out_r = str(r)
     with NoTracing():
         K = P["K"]
         tot = z3.IntVal(0)
@@ -138,7 +144,7 @@ def splice(n0: int, n1: int, n2: int, n3: int, n4: int, n5: int, m0: int, m1: in
         from_new = flat_at(newf, Pz - S)
         from_f2 = flat_at(f, Pz - S - M + E)
         body = z3.If(Pz < S, same(res, from_f1), z3.If(Pz < S + M, same(res, from_new), same(res, from_f2)))
-        ok = z3.And(res[3] == explen, z3.Implies(z3.And(Pz >= 0, Pz < explen), body), H.views_term(obs, res, Pz, explen))
+        ok = z3.And(res[3] == explen, z3.Implies(z3.And(Pz >= 0, Pz < explen), body), H.views_term(obs, res, Pz, explen), H.render_term(r, out_r, Pz))
         unchanged = len(f.chunks) == K and all(a is b for a, b in zip(f.chunks, chunks_before))
         if not unchanged:
             return verdict(False)
@@ -209,7 +215,7 @@ def _concrete_native(params, args):
 
 
 def concrete(fn, params, args):
-    from chx.common import cells, fmt_cells
+    from chx.common import cells, fmt_cells, render_matches
     P.clear()
     P.update(params)
     if fn == "splice_native":
@@ -240,5 +246,8 @@ def concrete(fn, params, args):
     got = cells(r)
     ok = got == want and cells(f) == before and all(a is b for a, b in zip(f.chunks, before_chunks)) \
         and len(f.chunks) == len(before_chunks) and len(r) == len(want) and r.s == "".join(c for c, _ in want)
+    if ok and not render_matches(r):
+        return {"ok": False, "observed": "str(result) = %r" % (str(r),), "expected": "a string displaying " + fmt_cells(got),
+                "call": "%r .%s(%r, start=%r, end=%r)" % (f, "append" if mode == "append" else "splice", new, s, None if mode != "given" else e)}
     return {"ok": ok, "observed": fmt_cells(got) + " len=%d s=%r" % (len(r), r.s), "expected": fmt_cells(want) + " len=%d" % len(want),
             "call": "%r .%s(%r, start=%r, end=%r)" % (f, "append" if mode == "append" else "splice", new, s, None if mode != "given" else e)}
